@@ -78,4 +78,20 @@ theorem mapM_ok_all {α β : Type} (f : α → Py β) : ∀ (l : List α) (r : L
         · obtain ⟨y, hy, hfy⟩ := mapM_ok_all f zs vs hr x hx'
           exact ⟨y, List.mem_cons_of_mem _ hy, hfy⟩
 
+/-- an invariant that every successful step preserves holds at the end of a successful fold -/
+theorem foldlM_inv {α β : Type} (f : β → α → Py β) (P : β → Prop) :
+    ∀ (l : List α) (init r : β), P init → (∀ st x st', x ∈ l → P st → f st x = .ok st' → P st') →
+      l.foldlM f init = .ok r → P r
+  | [], init, r, h0, _, h => by
+    simp [List.foldlM_nil, pure, Except.pure] at h; subst h; exact h0
+  | x :: xs, init, r, h0, hstep, h => by
+    rw [List.foldlM_cons] at h
+    cases hx : f init x with
+    | error e => rw [hx] at h; simp [bind, Except.bind] at h
+    | ok st =>
+      rw [hx] at h
+      simp only [bind, Except.bind] at h
+      exact foldlM_inv f P xs st r (hstep init x st List.mem_cons_self h0 hx)
+        (fun s y s' hy => hstep s y s' (List.mem_cons_of_mem _ hy)) h
+
 end CGV
